@@ -21,7 +21,7 @@ func init() {
 			`R17.4 the series kind that skipFile dispatches on is (re)assigned on every path from reading the header to the skip/process decision. ` +
 			`R17.6 (shared with C03) every cyclic path through the increment of the checkpoint file index stores nil into each pointer field of the checkpoint that the loop body or its callees read (SyncHeader, RsyncCheckpoint, BsdiffCheckpoint), directly or through a callee / deferred call that does so on all its paths. ` +
 			`R17.7 every success return of skipFile is reached through the outcome op.Type == HEY_YOU_DID_IT of a SyncOp read from the stream. ` +
-			`NOT decided: equality of the selected files with full application; that GetTouchedFiles equals the subset size.`,
+			`R07.4 (shared) pool read-seekers are positioned before they are read linearly. NOT decided: equality of the selected files with full application; that GetTouchedFiles equals the subset size.`,
 		Assumptions: []string{"effects are the Bowl methods GetWriter/Transpose and the lake.Pool methods GetSize/GetReader/GetReadSeeker; module-internal call graph (CHA) for reachability"},
 		Run:         runC17,
 	})
@@ -35,6 +35,7 @@ func runC17(c *core.Ctx) {
 	c.Rule("R17.5", "the whitelist kept is the caller's, values included")
 	rulePerFileStateCleared(c, "R17.6")
 	ruleSkipEndsAtTheMarker(c, "R17.7")
+	ruleRewindBeforeLinearRead(c, "R07.4")
 	{
 		nSt := 0
 		for _, fn := range c.P.SrcFuncs() {
